@@ -182,6 +182,45 @@ func main() {
 			})
 			e.Strs("allTypesRule", appends, "convertMappingWithMultipleTypes: how the All list is built")
 		}
+		// proxy -> store clients: every store list (hot, hot-read, write, read) is dialed by the same appendClients with the same
+		// option list, which contains the interceptor that forwards request metadata (the `use-seq-ql` header) to the store
+		if f, err := r.Load("proxyapi/ingestor.go"); err != nil {
+			e.Missing("storeDialCalls", err)
+		} else {
+			var calls, opts []string
+			if fd := f.Func("", "clientsFromConfig"); fd == nil {
+				e.Missing("storeDialCalls", "clientsFromConfig not found")
+			} else {
+				ast.Inspect(fd.Body, func(n ast.Node) bool {
+					if c, ok := n.(*ast.CallExpr); ok && f.Render(c.Fun) == "appendClients" {
+						calls = append(calls, f.Render(c))
+					}
+					return true
+				})
+				e.Strs("storeDialCalls", calls, "clientsFromConfig: the appendClients calls")
+			}
+			if fd := f.Func("", "appendClients"); fd == nil {
+				e.Missing("storeDialOptions", "appendClients not found")
+			} else {
+				ast.Inspect(fd.Body, func(n ast.Node) bool {
+					if c, ok := n.(*ast.CallExpr); ok && (f.Render(c.Fun) == "grpc.DialContext" || f.Render(c.Fun) == "grpc.NewClient") {
+						for _, a := range c.Args {
+							if ac, ok := a.(*ast.CallExpr); ok && strings.HasPrefix(f.Render(ac.Fun), "grpc.With") {
+								x := f.Render(ac.Fun)
+								if x == "grpc.WithUnaryInterceptor" || x == "grpc.WithChainUnaryInterceptor" {
+									x = f.Render(ac)
+								}
+								opts = append(opts, x)
+							} else if f.Render(a) != "ctx" && f.Render(a) != "replica" {
+								opts = append(opts, "arg:"+f.Render(a))
+							}
+						}
+					}
+					return true
+				})
+				e.Strs("storeDialOptions", opts, "appendClients: the dial options of the store connection")
+			}
+		}
 		// which tokenizers the ingestor registers, and the order of index()
 		if f, err := r.Load("proxy/bulk/ingestor.go"); err != nil {
 			e.Missing("registeredTokenizers", err)
